@@ -261,10 +261,26 @@ def make_app(spec, log, body_hook=None):
             app.add_hook(name, added)
 
     edits = spec.get('edits') or {}
+    rewrite = spec.get('rewrite')
+
+    def do_rewrite(i):
+        """a before-hook that rewrites the request before routing: strips the prefix the request
+        arrived with and / or overrides the method, through the request object or the environ"""
+        arrive = getattr(app, '_zoo_arrive', None)
+        if not rewrite or rewrite['hook'] != i or not arrive:
+            return
+        r = app.request
+        put = r.__setitem__ if rewrite['how'] == 'item' else r.environ.__setitem__
+        if arrive.get('prefix'):
+            put('PATH_INFO', r.environ['PATH_INFO'][len(arrive['prefix']):])
+        if arrive.get('method'):
+            put('REQUEST_METHOD', arrive['to_method'])
+
     for i, (effs, res) in enumerate(spec['before']):
         def bh(i=i, effs=effs, res=res):
             log.append(f'b{i}')
             do_edit('before_request', 'b', i, (edits.get('before') or {}).get(i))
+            do_rewrite(i)
             run_effs(app.response, effs)
             finish(log, res, app)
         fns['before_request'].append(bh)
@@ -370,8 +386,9 @@ def make_environ(req, log, body=b'', extra=None):
     raw = path.encode('utf8').decode('latin1')
     if not req['path_ok']:
         raw += '\xff'
-    env['REQUEST_METHOD'] = req['method']
-    env['PATH_INFO'] = raw
+    arrive = req.get('arrive') or {}
+    env['REQUEST_METHOD'] = arrive.get('method') or req['method']
+    env['PATH_INFO'] = (arrive.get('prefix') or '') + raw
     env['QUERY_STRING'] = req.get('query', '')
     env['wsgi.errors'] = ErrStream(log)
     env['wsgi.input'] = io.BytesIO(body)
@@ -384,12 +401,16 @@ def make_environ(req, log, body=b'', extra=None):
     return env
 
 
-def url_repr(env, req, config=None):
-    """repr(html.escape(request.url)) for the request as `_handle` initialises it"""
+def url_repr(env, req, config=None, arrival=False):
+    """repr(html.escape(request.url)) for the request as `_handle` initialises it (for a request a
+    hook rewrites: as the hook leaves it, or with arrival=True as it came in)"""
     from ombott import Request
     e = dict(env)
     if req['path_ok']:
         e['PATH_INFO'] = e['PATH_INFO'].encode('latin1').decode('utf8')
+    arrive = req.get('arrive')
+    if arrive and not arrival and arrive.get('prefix'):
+        e['PATH_INFO'] = e['PATH_INFO'][len(arrive['prefix']):]
     return repr(html.escape(Request(e, config=config).url))
 
 
@@ -423,6 +444,7 @@ def serve_one(app, log, cur, req, body=b'', extra=None, pre=None, validate=False
     del log[:]
     if hasattr(log, 'produced'):
         log.produced, log.failed = set(), False
+    app._zoo_arrive = dict(req['arrive'], to_method=req['method']) if req.get('arrive') else None
     install_route(app, log, req, cur)
     if req['route'][0] == 'h':
         cur['prog'] = (req['route'][1], req['route'][2], pre)
@@ -430,6 +452,7 @@ def serve_one(app, log, cur, req, body=b'', extra=None, pre=None, validate=False
     if input_cls is not None:
         env['wsgi.input'] = input_cls(body)
     urlrepr = url_repr(env, req, app.config)
+    urlrepr_arrival = url_repr(env, req, app.config, arrival=True) if req.get('arrive') else None
     if keep is not None:
         keep.append(weakref.ref(env))
         keep.append(weakref.ref(env['wsgi.input']))
@@ -470,7 +493,7 @@ def serve_one(app, log, cur, req, body=b'', extra=None, pre=None, validate=False
             escaped = type(e).__name__
     del env
     return dict(log=list(log), starts=starts, data=data, shape=shape, cl=w.inserted, escaped=escaped,
-                complaints=complaints, urlrepr=urlrepr, hooks=hooks_now(app),
+                complaints=complaints, urlrepr=urlrepr, urlrepr_arrival=urlrepr_arrival, hooks=hooks_now(app),
                 produced=set(getattr(log, 'produced', ())), failed=getattr(log, 'failed', False))
 
 
@@ -632,9 +655,33 @@ def environ_path(req):
     return p if req['path_ok'] else p.encode('utf8').decode('latin1') + '\xff'
 
 
-def ser_req(req, urlrepr):
+def ser_req(req, urlrepr, urlrepr_arrival=None, rewrite=None):
+    arrive = req.get('arrive')
+    if arrive and rewrite:
+        ar = [str(rewrite['hook']), b01((arrive.get('method') or req['method']) == 'HEAD'),
+              hs((arrive.get('prefix') or '') + environ_path(req)), hs(urlrepr_arrival)]
+    else:
+        ar = ['-']
     return [str(req['id']), b01(req['method'] == 'HEAD'), b01(req['fw']), b01(req['path_ok']),
-            hs(environ_path(req)), hs(urlrepr), b01(req.get('json'))] + ser_route(req['route'])
+            hs(environ_path(req)), hs(urlrepr), b01(req.get('json'))] + ar + ser_route(req['route'])
+
+
+def add_rewrite(rng, spec, req):
+    """make the request arrive with a prefix and / or another method; a before-hook puts it right"""
+    if not req['path_ok']:
+        return
+    if not spec['before']:
+        spec['before'] = [([], ('ok',))]
+    arrive = {}
+    if rng.random() < .75:
+        arrive['prefix'] = rng.choice(['/v1', '/en', '/api/v2'])
+    if req['method'] != 'HEAD' and (not arrive or rng.random() < .4):
+        # method override (never from / to HEAD: whether the client gets a body must not be up to a hook)
+        arrive['method'] = rng.choice([m for m in ('GET', 'POST', 'PUT', 'DELETE') if m != req['method']])
+    if not arrive:
+        arrive['prefix'] = '/v1'
+    req['arrive'] = arrive
+    spec['rewrite'] = dict(hook=rng.randrange(len(spec['before'])), how=rng.choice(['item', 'environ']))
 
 
 # --------------------------------------------------------------------------------------
